@@ -726,7 +726,7 @@ func ruleFinalizerDiscipline() check.Rule {
 			rv := recvObj(info, fd)
 			// early return on done
 			earlyDone, setsDone := false, false
-			var loop *ast.RangeStmt
+			var loop *finalizerLoop
 			var loopVar types.Object
 			ast.Inspect(fd.Body, func(n ast.Node) bool {
 				switch x := n.(type) {
@@ -751,9 +751,37 @@ func ruleFinalizerDiscipline() check.Rule {
 					}
 				case *ast.RangeStmt:
 					if loop == nil {
-						loop = x
+						loop = &finalizerLoop{Stmt: x, Body: x.Body, Forward: true}
 						if id, _ := rootIdent(x.X); id != nil {
 							loopVar = objOf(info, id)
+						}
+					}
+				case *ast.ForStmt:
+					// the index form: for i := 0; i < len(list); i++ / for i := len(list) - 1; i >= 0; i--
+					if loop == nil {
+						var listID *ast.Ident
+						for _, part := range []ast.Node{x.Init, x.Cond} {
+							if part == nil {
+								continue
+							}
+							ast.Inspect(part, func(y ast.Node) bool {
+								if call, ok := y.(*ast.CallExpr); ok && len(call.Args) == 1 {
+									if fid, ok := ast.Unparen(call.Fun).(*ast.Ident); ok && fid.Name == "len" {
+										if id, _ := rootIdent(call.Args[0]); id != nil && listID == nil {
+											listID = id
+										}
+									}
+								}
+								return true
+							})
+						}
+						if listID != nil {
+							fl := &finalizerLoop{Stmt: x, Body: x.Body, Forward: true}
+							if post, ok := x.Post.(*ast.IncDecStmt); ok && post.Tok == token.DEC {
+								fl.Forward = false
+							}
+							loop = fl
+							loopVar = objOf(info, listID)
 						}
 					}
 				}
@@ -767,6 +795,13 @@ func ruleFinalizerDiscipline() check.Rule {
 			if loop == nil {
 				c.Violation(key+"/loop", fd.Pos(), "no loop over the finalizers found")
 				return
+			}
+			// registration order: Wait registers its wake-up as a finalizer, after the teardowns of the attempt it waits for;
+			// run in reverse, the waiter is released while those teardowns have not run yet
+			if loop.Forward {
+				c.OK(key+"/order", loop.Pos(), "finalizers run in registration order")
+			} else {
+				c.Violation(key+"/order", loop.Pos(), "finalizers run in reverse registration order: the wake-up that Wait() registers last fires before the teardowns registered earlier have run, so whoever waits for an attempt (Retry, Repeat, Concat, DoWhile) starts the next one while this one is not released")
 			}
 			// the loop iterates a local copy assigned from s.finalizers under the lock
 			localCopy := false
@@ -1126,3 +1161,14 @@ func externalCloserIn(m *model.Model, sc *model.SC, o types.Object) bool {
 	}
 	return found
 }
+
+// finalizerLoop is the loop of subscriptionImpl.Unsubscribe that runs the finalizers, in its range or index form.
+type finalizerLoop struct {
+	Stmt    ast.Stmt
+	Body    *ast.BlockStmt
+	Forward bool
+}
+
+func (l *finalizerLoop) Pos() token.Pos { return l.Stmt.Pos() }
+
+func (l *finalizerLoop) End() token.Pos { return l.Stmt.End() }
